@@ -620,6 +620,56 @@ fn main() {
         });
         sink.merge(ss);
     }
+    // (6) strings shaped like an id instead of a name (every way of writing each of the 65536 ids: hex with and without
+    //     prefix, both cases, decimal, the IANA "0xC0,0x2F" notation, the Debug / Display texts of the id types and of the
+    //     suite itself): the name routes find nothing for them
+    {
+        let sid = par_run(run.threads, 256, |hi, sink| {
+            for lo in 0..256u32 {
+                let id = ((hi as u32) << 8 | lo) as u16;
+                let (h, l) = (id >> 8, id & 0xff);
+                let mut qs = vec![
+                    format!("0x{:04x}", id),
+                    format!("0x{:04X}", id),
+                    format!("0X{:04X}", id),
+                    format!("{:04x}", id),
+                    format!("{:04X}", id),
+                    format!("0x{:x}", id),
+                    format!("{:x}", id),
+                    format!("{}", id),
+                    format!("#{}", id),
+                    format!("0x{:02X},0x{:02X}", h, l),
+                    format!("0x{:02x},0x{:02x}", h, l),
+                    format!("{{0x{:02X},0x{:02X}}}", h, l),
+                    format!("{:02X}{:02X}", l, h),
+                    format!("{:?}", TlsCipherSuiteID(id)),
+                    format!("{}", TlsCipherSuiteID(id)),
+                    format!("TLS_{:04X}", id),
+                    format!("TLS_0x{:04X}", id),
+                    format!("Unknown({})", id),
+                    format!("Unknown(0x{:04x})", id),
+                ];
+                if let Some(s) = TlsCipherSuite::from_id(id) {
+                    qs.push(format!("{:?}", s));
+                    qs.push(format!("{} (0x{:04x})", s.name, id));
+                    qs.push(format!("{}:{}", s.name, id));
+                    qs.push(format!("{:04x}:{}", id, s.name));
+                }
+                for q in qs {
+                    sink.evals += 1;
+                    if cx.by_name.contains_key(&q) {
+                        continue;
+                    }
+                    if TlsCipherSuite::from_name(&q).is_some() || <&TlsCipherSuite>::try_from(q.as_str()).is_ok() {
+                        for (k, w) in check_name_query(&cx, &q) {
+                            sink.violation(format!("name {:?} {}", q, k), w, json!({"kind":"name","query":q}));
+                        }
+                    }
+                }
+            }
+        });
+        sink.merge(sid);
+    }
     let judged = sink.hist.get(&("name tokens", "judged")).copied().unwrap_or(0);
     if sink.viol.is_empty() && (judged < 300 || sink.hist.get(&("id lookup", "listed")).copied().unwrap_or(0) < 300) {
         machinery_failure(run.prop, "vacuous: fewer than 300 suites judged");
@@ -628,7 +678,7 @@ fn main() {
     cov.insert("exhaustive".into(), json!(true));
     cov.insert("registry_rows".into(), json!(cx.rows.len()));
     cov.insert("rule".into(), json!(
-        "all 65536 ids through 4 lookup routes (listed ids: all 10 columns + derived sizes against an independent reading of scripts/tls-ciphersuites.txt; name-token agreement); all registry names plus every proper prefix, single-character substitution (4-letter alphabet), deletion, appended/prepended character, case change and alias-style respelling (SSL_/tls_/no prefix, other separators, OpenSSL-like abbreviations, surrounding blanks) through both name lookups; every string of length <= 5 [6] over the 37-letter alphabet of registry names, bare and behind TLS_, through both name lookups (expected answer: nothing); committed snapshot of today's assignments. Non-trivial: ids that are listed or adjacent to a listed id; every name query"));
+        "all 65536 ids through 4 lookup routes (listed ids: all 10 columns + derived sizes against an independent reading of scripts/tls-ciphersuites.txt; name-token agreement); all registry names plus every proper prefix, single-character substitution (4-letter alphabet), deletion, appended/prepended character, case change and alias-style respelling (SSL_/tls_/no prefix, other separators, OpenSSL-like abbreviations, surrounding blanks) through both name lookups; every string of length <= 5 [6] over the 37-letter alphabet of registry names, bare and behind TLS_, through both name lookups (expected answer: nothing); every id written as a string in 19-23 notations (hex / decimal / IANA byte pair / Debug texts) through both name lookups; committed snapshot of today's assignments. Non-trivial: ids that are listed or adjacent to a listed id; every name query"));
     // the same check against the crate built with all cargo features (std, serialize, unstable)
     let mut sink = sink;
     run.all_features_variant(&mut sink);
